@@ -53,6 +53,8 @@ type vkFault struct {
 	Kind  string // "up" | "refuse" | "cut" | "delay"
 	Bytes int64  // cut: number of response bytes to let through
 	Delay time.Duration
+	// OnlyType, if non-zero, restricts the fault to requests of that message type (the others pass)
+	OnlyType byte
 }
 
 type vkReqLog struct {
@@ -152,6 +154,9 @@ func (p *vkProxy) handle(c net.Conn) {
 			}
 			p.mu.Lock()
 			f := p.fault
+			if f.OnlyType != 0 && f.OnlyType != th[0] {
+				f = vkFault{Kind: "up"}
+			}
 			entry := vkReqLog{Type: th[0], Fault: f.Kind}
 			if th[0] == vkMsgCreateIteratorReq {
 				var req coordinator.CreateIteratorRequest
